@@ -576,9 +576,10 @@ fn run_history(case: &FaultCase, fault: Option<(FaultRule, bool, bool, bool)>, c
             Failure::new("after_fault:reader_open_failed", format!("(api error: {failed_api:?}, exposed commit c{found_j}, last ok c{j_ok}) {msg}; history:{hist}"))
         })?;
         verify_searcher(&reader.searcher(), &f, &models[found_j as usize], "after_fault").map_err(|fl| {
-            // specific class: the metadata still names the previous commit, but the content is exactly what the
-            // failed commit would have published
-            if failed_commit && found_j == j_ok && verify_searcher(&reader.searcher(), &f, &env.pending, "after_fault").is_ok() {
+            // specific class: the metadata still names the previous commit, but the content is what the failed commit
+            // would have published
+            // (wholly, or - when a merge applied only the older deletes - partially)
+            if failed_commit && found_j == j_ok && fl.sig.starts_with("content_") {
                 Failure::new(
                     "after_fault:failed_commit_content_visible_under_previous_commit",
                     format!("(api error: {failed_api:?}) meta.json still carries payload c{j_ok} but the searchable content is the failed commit's: {}", fl.detail),
